@@ -8,8 +8,8 @@ open GoImap.CmdGrammar GoImap.CmdSpec
 
 /-! ### the keys of a criteria value, with their effects -/
 
-def seqItem (s : NSet) : KI := (atom s.text, addF fun f => { f with seqSets := f.seqSets ++ [s] })
-def uidItem (s : NSet) : KI := (kw "UID" ++ sp ++ atom s.text, addF fun f => { f with uidSets := f.uidSets ++ [s] })
+def seqItem (s : NSet) : KI := (atom s.text, addF fun f => { f with seqSets := f.seqSets ++ [delivN s] })
+def uidItem (s : NSet) : KI := (kw "UID" ++ sp ++ atom s.text, addF fun f => { f with uidSets := f.uidSets ++ [delivN s] })
 
 def recvDateItems (s b : Date) : List KI :=
   if s.day ≠ 0 && b.day ≠ 0 && onRule s b then
@@ -55,6 +55,22 @@ def flatItems (f : Flat) : List KI :=
   f.header.map headerItem ++ f.body.map bodyItem ++ f.text.map textItem ++ f.flags.map flagItem ++ f.notFlags.map notFlagItem ++
   largerItems f.larger ++ smallerItems f.smaller
 
+/-- what the session receives for a criteria value: the canonical form, with every number set as `ParseSet`
+    builds it from the written ranges (for a canonical set: the set itself) -/
+def delivFlat (f : Flat) : Flat :=
+  { canonFlat f with seqSets := f.seqSets.map delivN, uidSets := f.uidSets.map delivN }
+
+mutual
+  def delivCrit : Crit → Crit
+    | .mk f nots ors => .mk (delivFlat f) (delivNots nots) (delivOrs ors)
+  def delivNots : CritList → CritList
+    | .nil => .nil
+    | .cons c t => .cons (delivCrit c) (delivNots t)
+  def delivOrs : OrList → OrList
+    | .nil => .nil
+    | .cons a b t => .cons (delivCrit a) (delivCrit b) (delivOrs t)
+end
+
 /-- the keys of the group: `ALL` when there is nothing to say -/
 def orAll (items : List KI) : List KI := if items.isEmpty then [(kw "ALL", id)] else items
 
@@ -64,11 +80,11 @@ mutual
     | .mk f nots ors => wList ((orAll (flatItems f ++ notItems nots ++ orItems ors)).map (·.1))
   def notItems : CritList → List KI
     | .nil => []
-    | .cons c t => (kw "NOT" ++ sp ++ critWire c, fun x => .mk x.flat (x.nots.snoc (canonCrit c)) x.ors) :: notItems t
+    | .cons c t => (kw "NOT" ++ sp ++ critWire c, fun x => .mk x.flat (x.nots.snoc (delivCrit c)) x.ors) :: notItems t
   def orItems : OrList → List KI
     | .nil => []
     | .cons a b t =>
-      (kw "OR" ++ sp ++ critWire a ++ sp ++ critWire b, fun x => .mk x.flat x.nots (x.ors.snoc (canonCrit a) (canonCrit b))) :: orItems t
+      (kw "OR" ++ sp ++ critWire a ++ sp ++ critWire b, fun x => .mk x.flat x.nots (x.ors.snoc (delivCrit a) (delivCrit b))) :: orItems t
 end
 
 def critItems : Crit → List KI
@@ -77,8 +93,8 @@ def critItems : Crit → List KI
 /-! ### what the theorem assumes of a criteria value -/
 
 structure FlatOK (f : Flat) : Prop where
-  seq : ∀ s ∈ f.seqSets, SetOK s ∧ SetNF s ∧ s ≠ .searchRes
-  uid : ∀ s ∈ f.uidSets, SetOK s ∧ SetNF s
+  seq : ∀ s ∈ f.seqSets, SetLit s ∧ s ≠ .searchRes
+  uid : ∀ s ∈ f.uidSets, SetLit s
   header : ∀ kv ∈ f.header, strOk kv.1 = true ∧ strOk kv.2 = true
   body : ∀ v ∈ f.body, strOk v = true
   text : ∀ v ∈ f.text, strOk v = true
@@ -104,11 +120,11 @@ theorem good_flatItems (fuel ld kd : Nat) (f : Flat) (hf : FlatOK f) : ∀ a ∈
   intro a ha
   simp only [flatItems, List.mem_append, List.mem_map] at ha
   rcases ha with ((((((((((⟨s, hs, rfl⟩ | ⟨s, hs, rfl⟩) | ha) | ha) | ⟨kv, hkv, rfl⟩) | ⟨v, hv, rfl⟩) | ⟨v, hv, rfl⟩) | ⟨fl, hfl, rfl⟩) | ⟨fl, hfl, rfl⟩) | ha) | ha)
-  · obtain ⟨h1, _, h3⟩ := hf.seq s hs
+  · obtain ⟨h1, h3⟩ := hf.seq s hs
     cases s with
     | searchRes => exact absurd rfl h3
     | set rs => exact good_seq fuel ld kd rs h1
-  · exact good_uid fuel ld kd s (hf.uid s hs).1
+  · exact good_uid fuel ld kd s (delivN s) (setReads_lit s (hf.uid s hs))
   · unfold recvDateItems at ha
     split_ifs at ha <;> simp only [List.mem_append, List.mem_singleton, List.mem_cons, List.not_mem_nil, or_false, false_or] at ha
     · subst ha; exact good_on fuel ld kd _
